@@ -992,7 +992,7 @@ pub fn run(args: &Args) {
     std::fs::create_dir_all(&tmp).expect("temp dir");
     let th = args.thorough;
     let mut cx = Ctx {
-        sum: Summary::new("C17", "LruMap / ConcurrentLruMap: every get/put/remove/contains/clear/len history of <= 4 (quick) or 5 (thorough) operations over 3 keys at capacity 1 and 2, plus generated histories of up to 120 operations over cap+1..cap+3 keys at capacities 1..4 (eviction on most puts), 4 config presets, shard counts 1,2,4,8, three routing strategies, a recording eviction callback; each result, the callback invocations of each step, len and final retrievability compared with a time-stamped reference and with the Coq model. Page cache: files of 0, 1, PAGE-1, PAGE, PAGE+1, 2*PAGE+100, 3*PAGE+17, 5*PAGE bytes, cache of 0..3 pages and large, reads at offsets/lengths at page boundaries, inside the short last page, straddling, beyond EOF, with prefetch, invalidate_page/range, overwrite+invalidate, read_batch, read_with_prefetch; bytes compared with the file and (digest) with the Coq model. Also: the file rewritten without telling the cache and invalidate_range as a later call (same, covering, partial, other range or none), close_file, SingleLruPageCache with a used buffer and size(). CachedBlobStore: put/get/remove/flush/prefetch/enable/disable histories for 3 write strategies with own and shared cache (blobs of 0..2*PAGE+5 bytes, a real file read / rewritten through the shared cache), compared with the wrapped store and with the Coq model over a MemoryBlobStore model. RoundRobin: one call per operation against the counter model; ThreadAffinity: 1-4 worker threads, observed shard per thread, per-shard reference LRU. non-trivial = more puts than capacity / history of >= 3 operations"),
+        sum: Summary::new("C17", "LruMap / ConcurrentLruMap: every get/put/remove/contains/clear/len history of <= 4 (quick) or 5 (thorough) operations over 3 keys at capacity 1 and 2, plus generated histories of up to 120 operations over cap+1..cap+3 keys at capacities 1..4 (eviction on most puts), 4 config presets, shard counts 1,2,4,8, three routing strategies, a recording eviction callback; each result, the callback invocations of each step, len and final retrievability compared with a time-stamped reference and with the Coq model. Page cache: files of 0, 1, PAGE-1, PAGE, PAGE+1, 2*PAGE+100, 3*PAGE+17, 5*PAGE bytes, cache of 0..3 pages and large, reads at offsets/lengths at page boundaries, inside the short last page, straddling, beyond EOF, with prefetch, invalidate_page/range, overwrite+invalidate, read_batch, read_with_prefetch; bytes compared with the file and (digest) with the Coq model. Also: the file rewritten without telling the cache and invalidate_range as a later call (same, covering, partial, other range or none), close_file, SingleLruPageCache with a used buffer and size(). CachedBlobStore: put/get/remove/flush/prefetch/enable/disable histories for 3 write strategies with own and shared cache (blobs of 0..2*PAGE+5 bytes, a real file read / rewritten through the shared cache), compared with the wrapped store and with the Coq model over a MemoryBlobStore model. RoundRobin: one call per operation against the counter model; ThreadAffinity: 1-4 worker threads, observed shard per thread, per-shard reference LRU. Oracle breadth (c17_wide.rs, oracle only): LruMap / ConcurrentLruMap through all four constructors each, 8 key / value type pairs (String, u8, signed, zero-sized, bool, tuples, byte vectors), is_empty / capacity / statistics bound, shard_sizes / shard_count / keys / rebalance / for_each_shard / shard_stats after every kind of operation, presets as shipped (4 x 512, 16 x 1024 filled; 2 x CPUs x 8192 constructed), capacities 255..257, 65535..65537, 2^20+1 and 512 / 1024 / 8192 as shipped through 10^4..10^6 generated operations (kind, n, seed); page cache histories with mark_dirty / flush_file / file_size / register_file / a second id of one path / reopen after close / multi-request read_batch / read_with_prefetch with any look-ahead and extreme offsets / reused, pooled and held buffers / config options (prefetch, statistics, page_size, huge pages, load factor, 64 shards), a sparse 4 GiB file (page ids beyond 2^16 and 2^20), files larger than the 2 MiB huge-page minimum and than the 32 MiB shipped preset; CacheBuffer + BufferPool against a Vec<u8>; FileManager directly; CachedBlobStore through the short constructors, over a nested CachedBlobStore and a PlainBlobStore, two stores and a real file on one cache, inner_mut, blobs of 64 KiB..1 MiB; FsaCache presets, zero paths, is_full, the state word. non-trivial = more puts than capacity / history of >= 3 operations"),
         shards: CoqShards::new(HEADER, 75),
         budget_lru: if th { 6000 } else { 700 }, budget_cmap: if th { 2000 } else { 250 }, budget_pc: if th { 1500 } else { 220 },
         terms: vec![vec![]; 8], n_lru: 0, n_cmap: 0, n_pc: 0, tmp: tmp.clone(), fileno: 0,
